@@ -96,7 +96,9 @@ def build_font(cfg, sources, fea="auto", reload=True):
         if fea == "auto":
             fd, fea_path = tempfile.mkstemp(prefix="nanoverif-", suffix=".fea")
             with os.fdopen(fd, "w") as f:
-                f.write(features.generate_fea(seqs))
+                # as the write_fea step does: with a custom glyph map the names travel with the sequences
+                custom = any(s_.get("name") for s_ in sources)
+                f.write(features.generate_fea(dict(zip(seqs, names)) if custom else seqs))
             kw["fea_file"] = fea_path
         elif fea is None:
             kw["fea_file"] = ""
